@@ -16,6 +16,7 @@ EXTENDS Integers, Sequences, FiniteSets
 
 VARIABLES cfg, rings, hist
 vars == <<cfg, rings, hist>>
+Ops == INSTANCE RingOps
 
 Min2(a, b) == IF a < b THEN a ELSE b
 Envs == 1..cfg.N
@@ -23,12 +24,12 @@ Stored(e) == Min2(rings[e].pos, cfg.cap)                 \* current_size
 
 Init(c, empty) ==
   /\ cfg = c
-  /\ rings = [e \in 1..c.N |-> [slots |-> [i \in 0..(c.cap - 1) |-> empty], pos |-> 0]]
+  /\ rings = [e \in 1..c.N |-> Ops!EmptyRing(c.cap, empty)]
   /\ hist = [e \in 1..c.N |-> <<>>]
 
 \* implementation shape: idx = position % size; position + 1
 Add(e, row) ==
-  /\ rings' = [rings EXCEPT ![e] = [slots |-> [@.slots EXCEPT ![@.pos % cfg.cap] = row], pos |-> @.pos + 1]]
+  /\ rings' = [rings EXCEPT ![e] = Ops!RingAdd(@, row, cfg.cap)]
   /\ hist' = [hist EXCEPT ![e] = Append(@, row)]
   /\ UNCHANGED cfg
 
